@@ -58,6 +58,9 @@ type (
 	ZI int8
 	// Big is 128 KiB: `chan *Big` is a legal type, `chan Big` is not (reflect.ChanOf refuses elements of 64 KiB or more).
 	Big [1 << 17]byte
+	// Giant is 32 TiB: `[1<<20]*Giant` is a legal type of 8 MiB, `[1<<20]Giant` is not a type at all
+	// (reflect.ArrayOf panics: the size would exceed the address space).
+	Giant [1 << 45]byte
 )
 
 func (ZI) MI0() {}
@@ -166,6 +169,7 @@ var byID = map[int]reflect.Type{
 	83: reflect.TypeOf(map[string]*T0(nil)),
 	84: reflect.TypeOf((func() *T0)(nil)),
 	85: reflect.TypeOf((<-chan *T0)(nil)),
+	86: reflect.TypeOf((*[1 << 20]*Giant)(nil)).Elem(),
 }
 
 var (
@@ -293,6 +297,7 @@ var expected = func() []TypeInfo {
 	add(83, "other", -1, false)
 	add(84, "other", -1, false)
 	add(85, "other", -1, false)
+	add(86, "other", -1, false)
 	return e
 }()
 
